@@ -43,6 +43,8 @@ def plan(tier, seed):
                            env=dict(envv, VERIF_SPLITS=",".join(map(str, sp))))
                     j["name"] += "[n=%d,list=%d,elem=%d,splits=%s]" % (n, ol, oe, "-".join(map(str, sp)) or "none")
                     jobs.append(j)
+    jobs.append(ch("C15", "vf/pyshim/h_mapzip.py", "h_map_zip", t, ["core.read_row_group_arrays", "schema._is_map_like",
+                                                                  "schema.SchemaHelper"]))
     for h in ("h_levels", "h_list_shape", "h_map_shape"):
         jobs.append(ch("C15", "vf/pyshim/h_schema.py", h, t, ["schema.SchemaHelper", "schema._is_list_like",
                                                              "schema._is_map_like"]))
